@@ -177,14 +177,120 @@ Theorem C10_prefix_recovery_delete_before_store_refuted : forall sh,
 Proof. exact recovery_as_coded_refuted. Qed.
 Print Assumptions C10_prefix_recovery_delete_before_store_refuted.
 
+(* ---- the ORDER in which start-up calls the three recovery functions (cmd/startup/startup.go, startIngestServer).
+   They cooperate through the file system: the directory of a segment is created by flushBlock (FlushSummary:
+   os.MkdirAll), on restart by RecoverWALData, and - since fix 5e1901f - by RecoverMNameWALData's FlushMetricNames
+   itself.  A crashed segment that is still in its FIRST block has no directory.
+   WalRestart.v: one restart = the functions in a given order on the state (directory, datapoint log, block files, name
+   log, .mnm, meta-entry log, metricmeta.json) of every shard's crashed segment.  [restart true] = the code
+   (FlushMetricNames creates the directory); [restart false] = the code before 5e1901f. ---- *)
+From SigM Require Import WalRestart.
+From SigP Require Import WalRestartProofs.
+(* FULL statement (property text, one restart), unguarded: for EVERY crash state - a segment in its first block, names
+   logged before any datapoint included - every completed append is in the store after ONE restart and nothing else
+   changed *)
+Theorem C10_restart_in_startup_order_replays_all : forall s,
+  restart true startup_order s = replayed_state s.
+Proof. exact mkdir_fix_startup_order. Qed.
+Print Assumptions C10_restart_in_startup_order_replays_all.
+(* ... in EVERY order and with repeated calls, for all shards at once (each function loops over all shards before the
+   next one starts): the order of the three calls no longer matters for the outcome *)
+Theorem C10_restart_any_order_replays_all : forall order s,
+  mem_rfun RDp order && mem_rfun RNm order && mem_rfun RMeta order = true ->
+  restart true order s = replayed_state s.
+Proof. exact mkdir_fix_any_order. Qed.
+Print Assumptions C10_restart_any_order_replays_all.
+Theorem C10_restart_any_order_replays_all_shards : forall order ss,
+  mem_rfun RDp order && mem_rfun RNm order && mem_rfun RMeta order = true ->
+  restart_all true order ss = map replayed_state ss.
+Proof. exact mkdir_fix_any_order_shards. Qed.
+Print Assumptions C10_restart_any_order_replays_all_shards.
+(* ... and exactly the sequences that call all three functions do *)
+Theorem C10_restart_replays_all_iff_every_function_called : forall order,
+  (forall s, restart true order s = replayed_state s) <->
+  mem_rfun RDp order && mem_rfun RNm order && mem_rfun RMeta order = true.
+Proof. exact mkdir_fix_replays_all_iff. Qed.
+Print Assumptions C10_restart_replays_all_iff_every_function_called.
+Example C10_restart_names_first_now_harmless :
+  restart true names_first_order w_first_block = replayed_state w_first_block /\
+  restart true startup_order w_names_only = replayed_state w_names_only /\ nm_st (replayed_state w_names_only) = [7].
+Proof. vm_compute. repeat split; reflexivity. Qed.
+(* the closed form behind it: the state after a restart that calls the functions in ANY sequence, with or without the
+   MkdirAll *)
+Theorem C10_restart_closed_form : forall mk order s,
+  restart mk order s =
+  st s (mem_rfun RDp order)
+       ((mem_rfun RNm order && (sdir s || mk)) || (nonempty (dp_log s) && dp_then_names order))
+       (mem_rfun RMeta order).
+Proof. exact restart_closed_form. Qed.
+Print Assumptions C10_restart_closed_form.
+(* nothing else: whatever the order and the state, a block other than the log's keeps its content, the log's block
+   holds exactly the logged datapoints or is untouched, .mnm holds exactly the logged names or is untouched, a segment
+   is listed only if it was listed or logged *)
+Theorem C10_restart_invents_nothing : forall mk order s,
+  let s' := restart mk order s in
+  (forall b, b <> dp_blk s -> get_blk b (blocks s') = get_blk b (blocks s)) /\
+  (get_blk (dp_blk s) (blocks s') = Some (dp_log s) \/ blocks s' = blocks s) /\
+  (nm_st s' = nm_log s \/ nm_st s' = nm_st s) /\
+  (me_st s' = true -> me_st s = true \/ me_log s = true).
+Proof. exact restart_nothing_invented. Qed.
+Print Assumptions C10_restart_invents_nothing.
+
+(* PRE-FIX documentation (before 5e1901f: FlushMetricNames did not create the directory; fixed finding
+   restart_keeps_metric_names_of_segment_without_directory_in_log, and why the ORDER of the calls mattered: seed C10h) *)
+(* the start-up order replayed everything only for the crash states whose logged names had a directory to go to (it
+   exists, or datapoints are logged whose replay creates it) *)
+Theorem C10_prefix_restart_in_startup_order_guarded : forall s,
+  names_storable false s = true -> restart false startup_order s = replayed_state s.
+Proof. exact (startup_order_replays_all false). Qed.
+Print Assumptions C10_prefix_restart_in_startup_order_guarded.
+Example C10_prefix_restart_guard_satisfiable_first_block :
+  names_storable false w_first_block = true /\ sdir w_first_block = false /\ nm_log w_first_block = [7].
+Proof. repeat split; reflexivity. Qed.
+Theorem C10_prefix_restart_in_startup_order_guarded_shards : forall ss,
+  forallb (names_storable false) ss = true -> restart_all false startup_order ss = map replayed_state ss.
+Proof. exact (startup_order_replays_all_shards false). Qed.
+Print Assumptions C10_prefix_restart_in_startup_order_guarded_shards.
+(* the excluded crash state: names logged, no datapoint logged yet, segment in its first block: whatever the order
+   and however many restarts, the names stayed in the log *)
+Theorem C10_prefix_restart_names_without_directory_refuted : forall order n,
+  names_storable false w_names_only = false /\
+  Nat.iter n (restart false order) w_names_only = w_names_only /\
+  nm_log w_names_only = [7] /\ nm_st w_names_only = [].
+Proof. intros order n. split; [reflexivity|]. split; [apply names_only_state_never_replayed|split; reflexivity]. Qed.
+Print Assumptions C10_prefix_restart_names_without_directory_refuted.
+(* EVERY sequence of calls: it replayed everything in one restart (for all guarded crash states) exactly when each
+   function is called and some RecoverWALData call is followed by a RecoverMNameWALData call *)
+Theorem C10_prefix_restart_order_characterised : forall order,
+  (forall s, names_storable false s = true -> restart false order s = replayed_state s)
+  <-> good_order false order = true.
+Proof. exact (replays_all_iff_good_order false). Qed.
+Print Assumptions C10_prefix_restart_order_characterised.
+(* names first (seed C10h): a segment in its first block got its datapoints back but not its names, although their
+   append had completed; the name log was kept and a SECOND restart stored them *)
+Theorem C10_prefix_restart_names_first_refuted :
+  names_storable false w_first_block = true /\
+  let s1 := restart false names_first_order w_first_block in
+  get_blk 0 (blocks s1) = Some [1; 2] /\ nm_st s1 = [] /\ nm_log s1 = [7] /\
+  restart false names_first_order s1 = replayed_state w_first_block /\
+  restart false startup_order w_first_block = replayed_state w_first_block.
+Proof. exact names_first_refuted. Qed.
+Print Assumptions C10_prefix_restart_names_first_refuted.
+Theorem C10_prefix_restart_twice_replays_all_in_any_order : forall order s,
+  mem_rfun RDp order && mem_rfun RNm order && mem_rfun RMeta order = true ->
+  names_storable false s = true ->
+  restart false order (restart false order s) = replayed_state s.
+Proof. exact second_restart_replays_all. Qed.
+Print Assumptions C10_prefix_restart_twice_replays_all_in_any_order.
+
 (* ---- store first, then drop the log — from the source: on EVERY path through rotateBlock the block is flushed
    (mb.flushBlock) before a datapoint log is deleted; on every path through rotateSegment the metric names are
    flushed before the metric-name log is deleted, and rotateSegment never deletes the meta-entry log (one file for
    all segments); ForceFlushMetricsBlock deletes it only after wg.Wait() (call-order skeletons regenerated from
    /repo on every run by gotrans in calltrace mode, callees inlined: rules C10.* of GenOrderCheck.co_rules).
    The milestone orders WalHandoff.v takes as the code's are the code's. ---- *)
-From SigP Require GenOrderCheck GenOrderProofs.
+From SigP Require GenOrderCheck GenOrderC10.
 Theorem C10_code_stores_before_it_drops_a_log : forall r : GenOrderCheck.rule,
   In r GenOrderCheck.c10_rules -> GenOrderCheck.rule_holds r.
-Proof. exact GenOrderProofs.co_C10_rules_hold. Qed.
+Proof. exact GenOrderC10.co_C10_rules_hold. Qed.
 Print Assumptions C10_code_stores_before_it_drops_a_log.
